@@ -178,6 +178,9 @@ def run(chk):
     shared.client_flush(chk, "R7")
     shared.server_reset(chk, "R8")
     shared.store_exact(chk, "R9")
+    # R11: entries of arrays that are described once (implicit members) are served like described ones (shared with C08.R11 / C06.R9)
+    from . import c08 as _c08im
+    _c08im.implicit_members(chk, "R11")
     # R10: what a later read returns is what was stored -- the value-source precedence of LocalNode.get_data (shared with C02.R10)
     from . import c02 as _c02
     _c02._precedence(chk, repo, folder, "R10")
